@@ -125,6 +125,10 @@ def op_line(op: list) -> str:
         return k
     if k == "probe":
         return "|".join([k, "1" if op[1] else "0", cps_opt(op[2])])
+    if k == "refresh":
+        return "|".join([k, str(op[1]), cps(op[2]), cps(op[3])])
+    if k == "held":  # the inner op through an AuthService bound to op[1]
+        return "|".join([k, cps(op[1]), op_line(op[2])])
     if k == "raw":  # malformed line, passed through
         return op[1]
     raise ValueError(f"unknown op {op!r}")
@@ -157,6 +161,10 @@ class RealConfig:
         # (name, environment) of select events that named no stored profile
         self.picked_ids: set[str] = set()
         self.picked_dangling: set[tuple[str, str]] = set()
+        # every select/create event as (name, environment the service was bound to, environment current at that time)
+        self.events: list[tuple[str, str, str]] = []
+        self.n_picks = 0  # number of select/create events so far (a monitor asks "was the last op a pick event?")
+        self._bound: str | None = None
 
     def close(self) -> None:
         if self._old is None:
@@ -183,6 +191,8 @@ class RealConfig:
     def _picked(self, name: str, env_url: str, profile: Any) -> None:
         """Record a select/create event: the name, the environment current when the operation started, the profile."""
         self.pick = (name, env_url)
+        self.events.append((name, self._bound if self._bound is not None else env_url, env_url))
+        self.n_picks += 1
         if profile is not None:
             self.picked_ids.add(profile.id)
         else:
@@ -246,58 +256,84 @@ class RealConfig:
                 finally:
                     AS.fetch_server_version = orig
                 return "ok"
-            auth_svc = self.svc.current_auth_service()
-            if k == "create-token":
-                a = auth_svc.create_profile_from_token(op[1], op[2])
-                self._picked(a.name, env_before, a)
-                return f"profile {self._note_created(a)} {enc(a.name)}"
-            if k == "create-oidc":
-                d = I["DeviceOIDC"](device_name="verif-host", user_id=op[2], email=op[3], client_id="cid",
-                                    discovery_url="https://idp.invalid/.well-known", device_access_token=op[4])
-                a = auth_svc.create_or_update_profile_from_oidc(op[1], d)
-                self._picked(a.name, env_before, a)
-                return f"profile {self._note_created(a)} {enc(a.name)}"
-            if k == "select":
-                target = auth_svc.get_profile(op[1])
-                auth_svc.set_current_profile(op[1])
-                self._picked(op[1], env_before, target)
-                return "ok"
-            if k == "select-any":
-                listed = auth_svc.list_profiles()
-                auth_svc.select_any_profile()
-                if listed:
-                    # whichever profile the service selected is the pick ("any"): read it back
-                    chosen = self.cm.get_settings_current_profile_name()
-                    if chosen is not None:
-                        self._picked(chosen, env_before, next((p for p in listed if p.name == chosen), None))
-                return "ok"
-            if k == "delete":
-                return "true" if asyncio.run(auth_svc.delete_profile(op[1])) else "false"
-            if k == "set-project":
-                auth_svc.set_project(op[1], op[2])
-                return "ok"
-            if k == "update-key":
-                p = auth_svc.get_profile(op[1])
-                if p is None:
-                    return "no-profile"
-                p.api_key = op[2]
-                p.api_key_id = op[3]
-                auth_svc.update_profile(p)
-                return "ok"
             if k == "destroy":
                 I["ConfigManager"](init_database=False).destroy_database()
                 return "ok"
+            if k == "refresh":
+                # the token-refresh middleware of some client: AuthService.refresh_to_db(profile id, new DeviceOIDC), by id
+                uuid = next((u for u, n in self.pids.items() if n == op[1]), "00000000-0000-4000-8000-%012d" % op[1])
+                d = I["DeviceOIDC"](device_name="verif-host", user_id=op[2], email="r@x.io", client_id="cid",
+                                    discovery_url="https://idp.invalid/.well-known", device_access_token=op[3])
+                self.svc.current_auth_service().refresh_to_db(uuid, d)
+                return "ok"
+            if k == "held":
+                inner = op[2]
+                if inner[0] in ("env-add", "env-upsert", "env-switch", "env-del", "probe", "destroy", "refresh", "held", "raw"):
+                    return self.apply(inner) if inner[0] not in ("held", "raw") else "bad-op"
+                # an AuthService constructed for op[1] (earlier, or by another process), used now
+                env = self.cm.get_environment(op[1]) or I["Environment"](api_url=op[1], requires_auth=False)
+                self._bound = op[1]
+                try:
+                    return self._auth_op(I["AuthService"](self.cm, env), inner, env_before)
+                finally:
+                    self._bound = None
+            return self._auth_op(self.svc.current_auth_service(), op, env_before)
         except ValueError as e:
-            msg = str(e)
-            if k == "env-switch" and "not found" in msg:
-                return "err-env-not-found"
-            if "already exists" in msg:
-                return "err-exists"
-            if "Project ID is required" in msg:
-                return "err-blank-project"
-            return f"raised ValueError: {msg}"
+            return self._value_error(k if k != "held" else op[2][0], e)
         except Exception as e:  # anything else is not an outcome the model knows
             return f"raised {type(e).__name__}: {e}"
+
+    def _value_error(self, k: str, e: ValueError) -> str:
+        msg = str(e)
+        if k == "env-switch" and "not found" in msg:
+            return "err-env-not-found"
+        if "already exists" in msg:
+            return "err-exists"
+        if "Project ID is required" in msg:
+            return "err-blank-project"
+        return f"raised ValueError: {msg}"
+
+    def _auth_op(self, auth_svc: Any, op: list, env_before: str) -> str:
+        """One profile operation through the given AuthService (exceptions propagate to `apply`)."""
+        I = self.impl
+        k = op[0]
+        if k == "create-token":
+            a = auth_svc.create_profile_from_token(op[1], op[2])
+            self._picked(a.name, env_before, a)
+            return f"profile {self._note_created(a)} {enc(a.name)}"
+        if k == "create-oidc":
+            d = I["DeviceOIDC"](device_name="verif-host", user_id=op[2], email=op[3], client_id="cid",
+                                discovery_url="https://idp.invalid/.well-known", device_access_token=op[4])
+            a = auth_svc.create_or_update_profile_from_oidc(op[1], d)
+            self._picked(a.name, env_before, a)
+            return f"profile {self._note_created(a)} {enc(a.name)}"
+        if k == "select":
+            target = auth_svc.get_profile(op[1])
+            auth_svc.set_current_profile(op[1])
+            self._picked(op[1], env_before, target)
+            return "ok"
+        if k == "select-any":
+            listed = auth_svc.list_profiles()
+            auth_svc.select_any_profile()
+            if listed:
+                # whichever profile the service selected is the pick ("any"): read it back
+                chosen = self.cm.get_settings_current_profile_name()
+                if chosen is not None:
+                    self._picked(chosen, env_before, next((p for p in listed if p.name == chosen), None))
+            return "ok"
+        if k == "delete":
+            return "true" if asyncio.run(auth_svc.delete_profile(op[1])) else "false"
+        if k == "set-project":
+            auth_svc.set_project(op[1], op[2])
+            return "ok"
+        if k == "update-key":
+            p = auth_svc.get_profile(op[1])
+            if p is None:
+                return "no-profile"
+            p.api_key = op[2]
+            p.api_key_id = op[3]
+            auth_svc.update_profile(p)
+            return "ok"
         raise ValueError(f"unknown op {op!r}")
 
 
